@@ -23,6 +23,7 @@ import (
 // and leaves built either by TensorOf (nested data is caller-owned) or by Full (dims are).
 type C10Case struct {
 	Steps []HStep `json:"steps"`
+	LR    float64 `json:"lr,omitempty"` // learning rate of the history's optimizer (0 is a valid rate)
 }
 
 func init() { register("C10/immutability", checkC10) }
@@ -213,6 +214,7 @@ func genC10(t *rapid.T) C10Case {
 			c.Steps = append(c.Steps, HStep{Kind: "mutate", X: k, Tracked: rapid.Bool().Draw(t, "plausible")})
 		}
 	}
+	c.LR = rapid.SampledFrom([]float64{0.125, 0.125, 0, -0.5, 1}).Draw(t, "lr")
 	// mutate whatever is still live, then back-propagate whatever still can be
 	for _, k := range live {
 		c.Steps = append(c.Steps, HStep{Kind: "mutate", X: k, Tracked: rapid.Bool().Draw(t, "plausible")})
@@ -237,8 +239,12 @@ func runC10(c C10Case, mutate bool) (*c10Run, *Failure) {
 	m := &trackModel{}
 	var pool []tensor.Tensor
 	var own []*owned
-	opt := optimizers.NewSGD(&optimizers.SGDConfig{LearningRate: 0.125})
+	opt := optimizers.NewSGD(&optimizers.SGDConfig{LearningRate: c.LR})
 	r := &c10Run{}
+	// gradient tensors handed out by Gradient() are tensors like any other: once seen, their
+	// shape and elements never change (a later back-propagation installs a new gradient tensor)
+	var handles []tensor.Tensor
+	var handleSnaps []lib.Snapshot
 	var prev []lib.Snapshot
 	pendingNT := map[int]bool{} // results of ops whose captured slice was mutated while the graph was live
 	for si, st := range c.Steps {
@@ -410,6 +416,39 @@ func runC10(c C10Case, mutate bool) (*c10Run, *Failure) {
 		cur, err := snapAll(pool)
 		if err != nil {
 			return nil, failf("step %d (%s): %v", si, st.Kind, err)
+		}
+		for h, g := range handles {
+			now, err := lib.Snap(g)
+			if err != nil {
+				return nil, failf("step %d (%s): a gradient tensor obtained earlier became unreadable: %v", si, st.Kind, err)
+			}
+			now.HasG, now.GS, now.GV = false, nil, nil
+			if !handleSnaps[h].Equal(now) {
+				return nil, failf("step %d (%s): a gradient tensor obtained from Gradient() after an earlier step changed its shape or elements: %v %v -> %v %v", si, st.Kind, handleSnaps[h].Shape, handleSnaps[h].V, now.Shape, now.V)
+			}
+		}
+		for _, x := range pool {
+			g := x.Gradient()
+			if g == nil || len(handles) >= 48 {
+				continue
+			}
+			seen := false
+			for _, h := range handles {
+				if h == g {
+					seen = true
+					break
+				}
+			}
+			if seen {
+				continue
+			}
+			gs, err := lib.Snap(g)
+			if err != nil {
+				return nil, failf("step %d (%s): gradient unreadable: %v", si, st.Kind, err)
+			}
+			gs.HasG, gs.GS, gs.GV = false, nil, nil
+			handles = append(handles, g)
+			handleSnaps = append(handleSnaps, gs)
 		}
 		for i := range pool {
 			if i >= len(prev) {
